@@ -18,7 +18,8 @@ Quirks of the code are kept (marked Q):
  Q6 only the last map parameter becomes the query dictionary;
  Q7 a qualified non-struct type (time.Duration) is treated as the body parameter, so on a query verb
     it is dropped;
- Q8 `reversMap` is filled by ranging over a Go map: two parameters with the same alias ⇒ map order.
+ (Q8 — `reversMap` filled from a Go map, two parameters with the same alias ⇒ map order — was repaired by
+    62d8144: such a directive is now a Fatal, and the model follows.)
 -/
 namespace ShootVerif.Rest
 
@@ -106,9 +107,10 @@ def lastParen (r : List Char) : Option (List Char) :=
 
 def shootColon : List Char := ['s', 'h', 'o', 'o', 't', ':']
 
-/-- one line against the request pattern: verb and raw group 2 -/
-def matchReqLine (line : List Char) : Option (Verb × List Char) :=
-  match stripPrefixCI shootColon line with
+/-- the request pattern tried at one line start `r` (= the rest of the doc text from there): verb
+    and raw group 2. `\W+` may run over line ends; `(.*)` stays in the verb's line. -/
+def matchReqAt (r : List Char) : Option (Verb × List Char) :=
+  match stripPrefixCI shootColon r with
   | none => none
   | some r1 =>
     -- `\W+`: at least one non-word character, then the verb starts with a word character
@@ -116,7 +118,15 @@ def matchReqLine (line : List Char) : Option (Verb × List Char) :=
     else
       match matchVerb (r1.dropWhile (fun c => !isWord c)) with
       | none => none
-      | some (v, r3) => (lastParen r3).map (fun c => (v, c))
+      | some (v, r3) => (lastParen (r3.takeWhile (· != '\n'))).map (fun c => (v, c))
+
+/-- `(?m)^`: the first line start (start of text or just after a newline) at which `f` matches -/
+def firstAtLineStart {α : Type} (f : List Char → Option α) : Bool → List Char → Option α
+  | atStart, [] => if atStart then f [] else none
+  | atStart, c :: cs =>
+    match (if atStart then f (c :: cs) else none) with
+    | some x => some x
+    | none => firstAtLineStart f (c == '\n') cs
 
 /-- `^("[^"]+"|[^"]+)$` -/
 def pathFormatOk (p : List Char) : Bool :=
@@ -182,7 +192,7 @@ def firstSome {α β : Type} (f : α → Option β) : List α → Option β
   | x :: xs => match f x with | some y => some y | none => firstSome f xs
 
 def parsePath (doc : List Char) : PathRes :=
-  match firstSome matchReqLine (splitLines doc) with
+  match firstAtLineStart matchReqAt true doc with
   | none => .noMatch
   | some (v, raw) =>
     let p := trimSpace raw
@@ -191,30 +201,53 @@ def parsePath (doc : List Char) : PathRes :=
       .ok ⟨v, p', placeholders p'⟩
     else .fatal
 
-/-! ## parseKV: all matches of `{([\w|-]+)\W*:\W*([^}]+)}` -/
+/-! ## parseKV: all matches of `{([\w|-]+)\W*:\W*([^}]+)}`
+
+Exact leftmost-first semantics. At a `{`: the key is the maximal run of `[\w|-]` (a shorter key
+never helps: what it gives back are `|`/`-`, which the following `\W*` would have to take again).
+Then, with `N` the maximal run of non-word characters and `rest` what follows it: the first `\W*`
+ends just before a `:` of `N`, the LAST one being tried first; the second `\W*` takes a prefix of
+what is left of `N`, the longest being tried first; the value is everything up to the next `}`,
+which must exist and leave the value non-empty. -/
 
 def isKeyChar (c : Char) : Bool := isWord c || c == '|' || c == '-'
 
+/-- `([^}]+)}` at the start of `t`: value and remainder -/
+def kvValueAt (t : List Char) : Option (List Char × List Char) :=
+  match t.dropWhile (· != '}') with
+  | '}' :: rest => if (t.takeWhile (· != '}')).isEmpty then none else some (t.takeWhile (· != '}'), rest)
+  | _ => none
+
+/-- second `\W*` then the value: `n2Rev` = the part of the non-word run still skipped (reversed),
+    `given` = what has been given back to the value so far -/
+def kvAfterColon : (n2Rev given rest : List Char) → Option (List Char × List Char)
+  | n2Rev, given, rest =>
+    match kvValueAt (given ++ rest) with
+    | some r => some r
+    | none =>
+      match n2Rev with
+      | [] => none
+      | c :: more => kvAfterColon more (c :: given) rest
+
+/-- first `\W*` then `:`: `nRev` = the part of the run not yet examined (reversed), `after` = the part behind -/
+def kvColons : (nRev after rest : List Char) → Option (List Char × List Char)
+  | [], _, _ => none
+  | c :: more, after, rest =>
+    if c == ':' then
+      match kvAfterColon after.reverse [] rest with
+      | some r => some r
+      | none => kvColons more (c :: after) rest
+    else kvColons more (c :: after) rest
+
 /-- one attempt right after a `{`: key, value and the rest after the closing `}` -/
 def matchKV (s : List Char) : Option (List Char × List Char × List Char) :=
-  match s.span isKeyChar with
-  | ([], _) => none
-  | (key, r1) =>
-    -- `\W*:` : non-word characters up to a colon
-    match r1.dropWhile (fun c => !isWord c && c != ':' && c != '}') with
-    | ':' :: r2 =>
-      -- `\W*([^}]+)}` : the value runs to the next `}`; leading non-word characters are eaten by
-      -- `\W*` (which gives one back when nothing else is left)
-      let run := r2.takeWhile (· != '}')
-      match r2.dropWhile (· != '}') with
-      | '}' :: rest =>
-        let v := run.dropWhile (fun c => !isWord c)
-        if !v.isEmpty then some (key, v, rest)
-        else match run.getLast? with
-          | some c => some (key, [c], rest)
-          | none => none
-      | _ => none
-    | _ => none
+  let key := s.takeWhile isKeyChar
+  if key.isEmpty then none
+  else
+    let r := s.dropWhile isKeyChar
+    match kvColons (r.takeWhile (fun c => !isWord c)).reverse [] (r.dropWhile (fun c => !isWord c)) with
+    | some (v, rest) => some (key, v, rest)
+    | none => none
 
 def parseKVAux : Nat → List Char → List (List Char × List Char)
   | 0, _ => []
@@ -231,71 +264,97 @@ def parseKV (s : List Char) : List (List Char × List Char) := parseKVAux (s.len
 
 /-! ## parseAlias: `(?m)^shoot:.*?\Walias=([^;\n]+)(;.*|\s*)$` (case-sensitive) -/
 
-/-- first position where a non-word character is followed by `alias=` and a non-empty `[^;]+` -/
+def aliasEq : List Char := ['a', 'l', 'i', 'a', 's', '=']
+def headersEq : List Char := ['h', 'e', 'a', 'd', 'e', 'r', 's', '=']
+
+/-- `.*?\Walias=([^;\n]+)`: the first non-word character (the `\W` may be a newline, the `.*?` before it
+    may not contain one) followed by `alias=` and a non-empty group; the tail `(;.*|\s*)$` then always matches -/
 def findAliasArg : List Char → Option (List Char)
   | [] => none
   | c :: cs =>
     let here :=
       if !isWord c then
-        match stripPrefix "alias=".toList cs with
+        match stripPrefix aliasEq cs with
         | some r =>
-          let g := r.takeWhile (· != ';')
+          let g := r.takeWhile (fun c => c != ';' && c != '\n')
           if g.isEmpty then none else some g
         | none => none
       else none
     match here with
     | some g => some g
-    | none => findAliasArg cs
+    | none => if c == '\n' then none else findAliasArg cs
 
-def matchAliasLine (line : List Char) : Option (List Char) :=
-  match stripPrefix shootColon line with
+def matchAliasAt (r : List Char) : Option (List Char) :=
+  match stripPrefix shootColon r with
   | none => none
-  | some r => findAliasArg r
+  | some r1 => findAliasArg r1
 
 /-- param ↦ alias, in order of appearance; `none` = no alias directive (nil map) -/
 def parseAlias (doc : List Char) : Option (List (List Char × List Char)) :=
-  (firstSome matchAliasLine (splitLines doc)).map parseKV
+  (firstAtLineStart matchAliasAt true doc).map parseKV
 
-/-! ## parseHeaders: `shoot:.*?\Wheaders=((?:\s*{[^\n]+},?)+)` (not anchored)
+/-! ## parseHeaders: `shoot:.*?\Wheaders=((?:\s*{[^\n]+},?)+)` (not anchored, `\s` = `[\t\n\f\r ]`) -/
 
-Modelled for a directive that sits on one line: group 1 then runs from `headers=` to the last `}`
-of that line (continuation lines that start with `{` are not modelled; the generator never writes
-them). -/
+def isReSpace (c : Char) : Bool := c == ' ' || c == '\t' || c == '\n' || c == '\r' || c == '\x0c'
 
-def findSub (pat : List Char) : List Char → Option (List Char)
-  | [] => if pat.isEmpty then some [] else none
-  | c :: cs =>
-    match stripPrefix pat (c :: cs) with
-    | some r => some r
-    | none => findSub pat cs
+/-- one round `\s*{[^\n]+},?` at the start of `t`: the greedy `[^\n]+` ends at the LAST `}` of the line
+    (with at least one character before it). Result: the text consumed and the remainder -/
+def hdrIter (t : List Char) : Option (List Char × List Char) :=
+  match t.dropWhile isReSpace with
+  | '{' :: body =>
+    let line := body.takeWhile (· != '\n')
+    match line.reverse.dropWhile (· != '}') with
+    | '}' :: revInner =>
+      if revInner.isEmpty then none
+      else
+        let inner := revInner.reverse
+        let used := t.takeWhile isReSpace ++ ('{' :: (inner ++ ['}']))
+        match body.drop (inner.length + 1) with
+        | ',' :: rest => some (used ++ [','], rest)
+        | rest => some (used, rest)
+    | _ => none
+  | _ => none
 
+/-- further rounds, as many as match -/
+def hdrMore : Nat → List Char → List Char
+  | 0, _ => []
+  | fuel + 1, t =>
+    match hdrIter t with
+    | some (used, rest) => used ++ hdrMore fuel rest
+    | none => []
+
+/-- group 1 at the text right after `headers=` -/
+def hdrGroup (t : List Char) : Option (List Char) :=
+  match hdrIter t with
+  | some (used, rest) => some (used ++ hdrMore rest.length rest)
+  | none => none
+
+/-- after a `shoot:`: the first `\Wheaders=` (in the same line; the `\W` itself may be the newline) whose group matches -/
 def findHeadersArg : List Char → Option (List Char)
   | [] => none
   | c :: cs =>
     let here :=
       if !isWord c then
-        match stripPrefix "headers=".toList cs with
-        | some r =>
-          -- `\s*{ [^\n]+ }`: optional blanks, an opening brace, and a closing brace later in the line
-          match r.dropWhile isSpace with
-          | '{' :: body =>
-            match body.reverse.dropWhile (· != '}') with
-            | '}' :: revInner => if revInner.isEmpty then none else some ('{' :: (revInner.reverse ++ ['}']))
-            | _ => none
-          | _ => none
+        match stripPrefix headersEq cs with
+        | some r => hdrGroup r
         | none => none
       else none
     match here with
     | some g => some g
-    | none => findHeadersArg cs
+    | none => if c == '\n' then none else findHeadersArg cs
 
-def matchHeadersLine (line : List Char) : Option (List Char) :=
-  match findSub shootColon line with
-  | none => none
-  | some r => findHeadersArg r
+/-- the leftmost `shoot:` from which the pattern matches -/
+def findShootHeaders : List Char → Option (List Char)
+  | [] => none
+  | c :: cs =>
+    match (match stripPrefix shootColon (c :: cs) with
+      | some r => findHeadersArg r
+      | none => none) with
+    | some g => some g
+    | none => findShootHeaders cs
 
 def parseHeaders (doc : List Char) : List (List Char × List Char) :=
-  match firstSome matchHeadersLine (splitLines doc) with
+  match findShootHeaders doc with
   | none => []
   | some g => parseKV g
 
@@ -304,7 +363,7 @@ def parseHeaders (doc : List Char) : List (List Char × List Char) :=
 def findFieldAlias : List Char → Option (List Char)
   | [] => none
   | c :: cs =>
-    match stripPrefix "alias=".toList (c :: cs) with
+    match stripPrefix aliasEq (c :: cs) with
     | some r =>
       let w := r.takeWhile isWord
       if w.isEmpty then findFieldAlias cs else some w
@@ -444,8 +503,7 @@ def aliasMapOf (doc : List Char) : List (String × String) :=
   | none => []
   | some kvs => setAll [] (strKVs kvs)
 
-/-- `reversMap[v] = k` for every pair (Q8: for a non-injective alias map the winner depends on Go's
-    map order; the model takes the last pair) -/
+/-- `reversMap[v] = k` for every pair (a value met twice is a Fatal, see `cookParsed`) -/
 def reverseOf (m : List (String × String)) : List (String × String) :=
   setAll [] (m.map (fun kv => (kv.2, kv.1)))
 
@@ -512,6 +570,8 @@ def subsOf (aliasMap : List (Expr × String)) (real : List String) : List PathSu
 
 /-- cookClient for one method once its two directives are parsed -/
 def cookParsed (d : PathDir) (asMap : List (String × String)) (params : List Param) : MethodRes :=
+  -- "<method>: parameters a and b have the same alias x" (62d8144)
+  if !decide ((asMap.map (·.2)).Nodup) then .fatal else
   let real := realParams asMap d.params
   match cookParams d.verb real { aliasMap := asMap.map (fun kv => (Expr.param kv.1, kv.2)) } params with
   | .error _ => .fatal
